@@ -22,7 +22,7 @@ func WithForm(p *e1.Program, form int) *e1.Program {
 	if form == 0 {
 		return p
 	}
-	if strings.Count(p.Neutral, stdHeader) != 1 || strings.Count(p.Neutral, stdCall) != 1 {
+	if strings.Count(p.Neutral, stdHeader) != 1 || strings.Count(p.Neutral, stdCall) != 1 || strings.Contains(p.Neutral, "func §two(") {
 		return nil
 	}
 	// the body ends at the LAST "}GEN\n" before the entry
